@@ -671,3 +671,18 @@ pub fn print(s: &S) -> String {
     tokens_verbatim(&parenthesize(s), &mut toks);
     text_of(&toks)
 }
+
+// Read a source text with the reference lexer and the grammar model (not with gram's parser): the
+// unique derivation mapped to a surface tree with chains re-associated. None if the text is not a
+// sentence.
+pub fn parse_text(g: &Grammar, text: &str) -> Option<S> {
+    let super::lexer::Lexed::Tokens(lt) = super::lexer::lex(text) else { return None };
+    let toks: Vec<Tok> = lt.iter().map(|t| Tok { k: t.k, text: text[t.start..t.end].to_owned() }).collect();
+    let kinds: Vec<K> = toks.iter().map(|t| t.k).collect();
+    let mut parses = super::grammar::Recognizer::new(g, &kinds).parses();
+    if parses.len() != 1 {
+        return None;
+    }
+    let tree = parses.pop().unwrap();
+    Some(reassoc(&FromTree::new(g, &toks).convert(&tree)))
+}
